@@ -173,7 +173,7 @@ theorem drvStep_A2 {cfg : DrvCfg} (hp : PostAl2 cfg) {st st' : DrvSt} {idx : Nat
                       obtain ⟨n3, k2⟩ := q
                       simp only [hq, Option.map_some, Option.some.injEq] at hn
                       subst hn
-                      obtain ⟨hlt, _, hbetween⟩ := tokenNext_spec hq
+                      obtain ⟨hlt, _, hbetween⟩ := tokenNext_hit hq
                       have hshape := groupTokens'_shape hgt (by omega : fromIdx ≤ n3)
                       simp only at hshape
                       have e : (((idx + 1 : Nat) : Int) + ((n3 - tidx - 1 : Nat) : Int) -
